@@ -261,6 +261,7 @@ def run_net(case):
     NetworkWriter.writeToCsv(net, path, separator=sep, h=h)
     fmt = NetworkFormat()
     fmt.createFromDict({'name': 'V', 'pos_edge_id': 0, 'pos_source': 1, 'pos_target': 2, 'pos_wkt': 4, 'pos_weight': -1, 'pos_direction': 3, 'separator': sep, 'header': h, 'doublequote': True, 'encoding': 'utf-8', 'srid': 'ENU'})
+    text = open(path).read()
     back = NetworkReader.readFromFile(path, fmt, verbose=False)
     os.remove(path)
     res = []
@@ -272,7 +273,20 @@ def run_net(case):
         tr = Track([Obs(ENUCoords(x, y, 0)) for x, y in e['geom']])
         p = TrackReader.parseWkt(tr.toWKT())
         wkt.append([[o.position.getX(), o.position.getY()] for o in p])
-    return {'edges': res, 'nodes': sorted(str(k) for k in back.NODES), 'wkt': wkt}
+    return {'edges': res, 'nodes': sorted(str(k) for k in back.NODES), 'wkt': wkt, 'text': text}
+
+
+def _erec(e, o=None):
+    return '{| e_id := "%s"; e_src := "%s"; e_tgt := "%s"; e_dir := "%d"; e_pts := %s |}' % (e['id'], e['s'], e['t'], e['o'], coq_list('("%s", "%s")' % (repr(float(x)), repr(float(y))) for x, y in e['geom']))
+
+
+def coq_net(case, obs):
+    if 'exc' in obs:
+        return None
+    sep = case.get('sep', ',')
+    sepc = '"%s"%%char' % sep if sep != '\t' else '(ascii_of_nat 9)'
+    return '(%s, %s, %s, "%s", %s)' % ('true' if case.get('h', 1) else 'false', sepc, coq_list(_erec(e) for e in case['edges']), obs['text'].replace('"', '""'),
+                                    coq_list(_erec(e) for e in obs['edges']))
 
 
 def oracle_net(case, obs):
@@ -300,9 +314,17 @@ def oracle_net(case, obs):
 S_NET = Stream(
     name='network', budget={'quick': 150, 'thorough': 4000},
     rule=('networks of 2..6 nodes and 1..8 edges (three orientations, self-loops, parallel edges, geometries of 2..5 vertices with integer, tiny (1e-5) and many-digit coordinates) written by '
-          'NetworkWriter.writeToCsv and read by NetworkReader.readFromFile; every edge geometry exported with toWKT and parsed with parseWkt; oracle only (exact equality: str(float) round-trips)'),
-    imports='From Coq Require Import List.', case_type='unit', check_def='Definition ok (c : unit) : bool := true.',
-    generate=gen_net, run_impl=run_net, coq_case=lambda c, o: None, oracle=oracle_net,
+          'NetworkWriter.writeToCsv (every separator, with and without header) and read by NetworkReader.readFromFile; the file text is compared byte for byte with the model\'s writer and the edges read back '
+          '(identifier, end nodes, orientation, geometry tokens, in file order) with the model of csv.reader + wktLineStringToObs on that text; every edge geometry exported with toWKT and parsed with parseWkt; '
+          'oracle: exact equality (str(float) round-trips)'),
+    imports='From Coq Require Import List Ascii String Bool.\nImport ListNotations.\nFrom TL Require Import Model.CsvText Model.WktText Model.NetText.\nOpen Scope string_scope.',
+    case_type='bool * ascii * list edge_rec * string * list edge_rec',
+    check_def='''Fixpoint pts_eqb (a b : list (string * string)) : bool := match a, b with [], [] => true | (x, y) :: r, (u, v) :: s => String.eqb x u && String.eqb y v && pts_eqb r s | _, _ => false end.
+Definition edge_eqb (a b : edge_rec) : bool := String.eqb (e_id a) (e_id b) && String.eqb (e_src a) (e_src b) && String.eqb (e_tgt a) (e_tgt b) && String.eqb (e_dir a) (e_dir b) && pts_eqb (e_pts a) (e_pts b).
+Fixpoint all_eqb (a : list (option edge_rec)) (b : list edge_rec) : bool := match a, b with [], [] => true | Some x :: r, y :: s => edge_eqb x y && all_eqb r s | _, _ => false end.
+Definition ok (c : bool * ascii * list edge_rec * string * list edge_rec) : bool :=
+  let '(h, sep, es, text, back) := c in String.eqb (write_net h sep es) text && all_eqb (read_net h sep text) back.''',
+    generate=gen_net, run_impl=run_net, coq_case=coq_net, oracle=oracle_net,
     nontrivial=lambda c, o: len(c['edges']) >= 2, klass=lambda c, o: 'edges=%d' % len(c['edges']))
 
 
